@@ -6,6 +6,7 @@ import (
 	"os"
 	"os/exec"
 	"path/filepath"
+	"runtime"
 	"sort"
 	"strings"
 	"time"
@@ -245,7 +246,15 @@ func (d *dirSim) materialise(e *dirEntry, goodTarget []byte) {
 	p := filepath.Join(d.dir, e.name)
 	must := func(err error) {
 		if err != nil {
-			panic("harness: scratch dir operation failed: " + err.Error())
+			extra := ""
+			if os.Getenv("VERIF_DEBUG_FD") != "" {
+				ents, _ := os.ReadDir("/proc/self/fd")
+				for _, e := range ents {
+					l, _ := os.Readlink("/proc/self/fd/" + e.Name())
+					extra += " " + e.Name() + "->" + l
+				}
+			}
+			panic("harness: scratch dir operation failed: " + err.Error() + extra)
 		}
 	}
 	switch e.kind {
@@ -807,7 +816,34 @@ func bloatFeedTo(b []byte, total int) []byte {
 }
 
 // runOnce materialises the case, applies plan and checks everything. Returns the violation.
-func runC19Once(t *sim.T, c *c19Case, plan c19Plan, extraCalls int, log bool) *sim.Violation {
+// openDescriptors counts this process's open file descriptors.
+func openDescriptors() int {
+	ents, err := os.ReadDir("/proc/self/fd")
+	if err != nil {
+		return -1
+	}
+	return len(ents)
+}
+
+func runC19Once(t *sim.T, c *c19Case, plan c19Plan, extraCalls int, log bool) (viol *sim.Violation) {
+	// Descriptor accounting: the workers of this check run with a low descriptor limit. A source that leaves
+	// descriptors open (one per skipped entry, say) runs dry inside a long directory and then skips good
+	// files; what it still holds after the stream has ended is reported as well.
+	for k := 0; k < 40; k++ {
+		if n := openDescriptors(); n >= 0 && n <= 40 {
+			break // (n < 0: not even /proc/self/fd can be opened any more)
+		}
+		runtime.GC() // let finalizers of an earlier run's leaked files release them, so the harness can work
+		time.Sleep(3 * time.Millisecond)
+	}
+	fdBefore := openDescriptors()
+	defer func() {
+		if viol == nil && fdBefore >= 0 {
+			if after := openDescriptors(); after > fdBefore+8 {
+				viol = &sim.Violation{Class: "descriptor-leak", Signature: "C19:descriptor-leak", Detail: fmt.Sprintf("after the stream ended the process holds %d more open file descriptors than before the source was created (%d entries in the directory): the source leaks descriptors and will start skipping readable files once it runs dry", after-fdBefore, len(c.entries))}
+			}
+		}
+	}()
 	dirSeq++
 	root := filepath.Join(ScratchBase(), fmt.Sprintf("r%d", dirSeq))
 	dirName := "d"
